@@ -30,7 +30,7 @@ from vlib import build
 from excel2pycl import Executor, Cell
 
 S = {'A1': 1, 'A2': 2, 'A4': 4, 'B1': '=A1+A2', 'B2': '=SUM(A1:A4)', 'B3': '=1/A1', 'B4': '=B1*2', 'C1': '=SUM(A:A)', 'C2': '=T!A1+A1',
-     'C3': '=IF(A3=0,B3,7)', 'C4': '=SUM(A1:A6)', 'D1': '=E1+1', 'D2': '=DAY(TODAY())+A1', 'D3': '=B1', 'D4': '=D3*3'}
+     'C3': '=IF(A3=0,B3,7)', 'C4': '=SUM(A1:A6)', 'D1': '=E1+1', 'D2': '=DAY(TODAY())+A1', 'D3': '=B1', 'D4': '=D3*3', 'B5': '=B1+B3'}
 T = {'A1': 10, 'B1': '=S!B1+A1', 'C1': '=S!D3'}
 N1 = {'A1': 100, 'B1': '=A1+1'}          # a sheet whose title is all digits and differs from its position
 TITLES = ['S', 'T', '1']
@@ -39,7 +39,7 @@ TARGETS = [(0, 'A1', 'constant'), (0, 'B1', 'formula'), (0, 'B3', 'failing formu
            (0, 'A6', 'below used range'), (0, 'E1', 'right of used range'), (1, 'A1', 'other sheet constant'), (2, 'A1', 'constant on the digit-titled sheet'),
            (0, 'D3', 'formula that is a bare reference to another cell'), (0, 'G9', 'beyond the used range and referenced by nothing')]
 QUERY = [(0, 'A1'), (0, 'A3'), (0, 'B1'), (0, 'B2'), (0, 'B3'), (0, 'B4'), (0, 'C1'), (0, 'C2'), (0, 'C3'), (0, 'C4'), (0, 'D1'),
-         (0, 'A6'), (0, 'E1'), (1, 'A1'), (1, 'B1'), (2, 'A1'), (2, 'B1'), (0, 'D2'), (0, 'D3'), (0, 'D4'), (1, 'C1'), (0, 'G9')]
+         (0, 'A6'), (0, 'E1'), (1, 'A1'), (1, 'B1'), (2, 'A1'), (2, 'B1'), (0, 'D2'), (0, 'D3'), (0, 'D4'), (1, 'C1'), (0, 'G9'), (0, 'B5')]
 
 def sheets(edit=()):
     s, t, n1 = dict(S), dict(T), dict(N1)
@@ -99,7 +99,13 @@ def history2(t1, v1, t2, v2, style, onebatch, q0, q):
     last[t2] = FAM[v2]
     got = outcome(lambda: ex.get_cell(mkcell(QUERY[q][0], QUERY[q][1], bool(style))).value)
     ref = reference(last, q)
-    return None if same(got, ref) else f'executor gives {got}, the edited workbook gives {ref}'
+    if not same(got, ref):
+        return f'executor gives {got}, the edited workbook gives {ref}'
+    # the overridden cell itself reads back as exactly the value written last (same value, same type)
+    back = outcome(lambda: ex.get_cell(mkcell(TARGETS[t2][0], TARGETS[t2][1], False)).value)
+    if back[0] != 'val' or type(back[1]) is not type(FAM[v2]) or back[1] != FAM[v2]:
+        return f'the overridden cell reads back as {back}, written {FAM[v2]!r} ({type(FAM[v2]).__name__})'
+    return None
 
 def history3(t1, v1, v2, v3, q):
     """the same cell written twice inside one batch and once more later"""
@@ -222,7 +228,7 @@ def run(report, tier, seed):
     report.bound('workbook: 3 sheets (one titled "1" at index 2), 17 cells; 8 override targets (constant, formula, failing formula, blank in range, below / '
                  'right of used range, other sheet, digit-titled sheet); history2: two writes (second target any of 10, values from a 10-value family incl. two neighbouring doubles and '
                  '1/True/0/False/""/0.0/text, numeric and A1+title addressing, same batch or two batches, optional query in between) then a query of any '
-                 'of 22 cells; history3: one cell written twice in one batch and once more, all value triples. All enumerated.')
+                 'of 23 cells; history3: one cell written twice in one batch and once more, all value triples. All enumerated.')
     report.assume('the reference is the workbook re-translated by the real Parser with a placeholder constant at each overridden position and evaluated '
                   'with the last-write map passed directly to the generated class (so set_arguments/_cell_preprocessor for *constant* cells is trusted)',
                   'the solver enumerates the finite history space (every value is hashed by the code under test, so nothing can stay symbolic); each '
